@@ -35,10 +35,18 @@ Definition escape (s : str) : str :=
 
 Definition NIL : str := S_ "NIL".
 
+(** a literal: {n}CRLF followed by the n octets *)
+Definition lit_text (p : str) : str := [LB] ++ dec (length p) ++ [RB] ++ crlf ++ p.
+
+Definition clean (s : str) : bool :=
+  forallb (fun c => negb (Ascii.eqb c CR) && negb (Ascii.eqb c LF)) s.
+
+(** since fix wave 3 a value with CR or LF (a header value with a bare CR) is
+    sent as a literal: a quoted string cannot carry it *)
 Definition quote_or_nil (s : str) : str :=
   match s with
   | [] => NIL
-  | _ => DQ :: escape s ++ [DQ]
+  | _ => if clean s then DQ :: escape s ++ [DQ] else lit_text s
   end.
 
 (** utils.QuoteString (F15 fix): always a quoted string, never NIL *)
@@ -248,8 +256,6 @@ Inductive out :=
 | Inline (name value : str)      (* "name value" *)
 | Lit (name payload : str).      (* literalPart(name, data) = "name {n}CRLF data" *)
 
-Definition lit_text (p : str) : str := [LB] ++ dec (length p) ++ [RB] ++ crlf ++ p.
-
 Definition part_text (o : out) : str :=
   match o with
   | Inline n v => n ++ [SP] ++ v
@@ -274,16 +280,7 @@ Definition pair_of (o : out) : str * str :=
 
 (** ---- classification of the known violations of C13 ---- *)
 Inductive finding :=
-| bare_cr_header     (* a header value with a bare CR reaches a quoted string *)
-| item_suppressed    (* a requested item is not answered because of substring cross-talk *)
-| rfc822_renamed     (* RFC822 is answered under the name BODY[] *)
-| partial_range.     (* <a.b>: origin not reported / range ignored / applied to BODY[TEXT] of another item *)
-
-Definition clean (s : str) : bool :=
-  forallb (fun c => negb (Ascii.eqb c CR) && negb (Ascii.eqb c LF)) s.
-
-Definition classify_headers (raw : str) : option finding :=
-  if forallb (fun h => clean (extract_header raw h)) env_headers then None else Some bare_cr_header.
+| rfc822_renamed.    (* RFC822 is answered under the name BODY[] (raven's own test suite asserts it) *)
 
 (** bytes a flag may consist of (RFC 3501 atom bytes, plus the leading backslash) *)
 Definition flag_byte (c : ascii) : bool :=
